@@ -138,6 +138,10 @@ type Config struct {
 	CrowdPrefix bool `json:"crowd_prefix,omitempty"`
 	// ScoreBystanders: that many (1 or 2) other goroutines evaluate Score of a message while the Mine call is running
 	ScoreBystanders int `json:"score_bystanders,omitempty"`
+	// FollowUp: when the call has returned a nonce while its watcher, having seen the cancellation, is still parked, a
+	// second call is made on the same Worker (same message and target, context.Background()) and scheduled together
+	// with what the first call left behind
+	FollowUp bool `json:"follow_up,omitempty"`
 
 	dataCache []byte
 }
@@ -681,6 +685,16 @@ func GenC13(seed uint64, tier string) *Config {
 	}
 	if c.BigData == 0 && r.IntN(6) == 0 {
 		c.ScoreBystanders = 1 + r.IntN(2)
+	}
+	if c.Hash == "stub" && c.MustFind && c.Fault.Kind == "cancel" && c.BigData == 0 && c.StepMs == 0 && r.IntN(3) == 0 {
+		// a find, then the cancellation, a watcher that is held up until the call has returned, then the next call
+		c.FollowUp = true
+		if c.Workers > 4 {
+			c.Workers = 1 + r.IntN(4)
+		}
+		c.Fault.Cancel = Trigger{Mode: "parked", Site: "worker.found", Nth: 1, Force: true}
+		c.Fault.Grace = 50
+		c.Strat = StratSpec{Kind: "starve", Victim: Watcher, K: 1 << 20, Seed: r.Uint64()}
 	}
 	return c
 }
